@@ -444,6 +444,9 @@ def run_rules(syn, res):
     except Unanalysable as u:
         res.unanalysable(T, "roles", "%s:%d" % (tf.file, u.line), "cannot discover the state roles: " + u.msg)
         return tf, None
+    except (IndexError, KeyError, TypeError, AttributeError, ValueError, RecursionError) as ex:
+        res.unanalysable(T, "roles", tf.file, "cannot discover the state roles: the tokenizer has a shape the interpreter cannot evaluate (%s: %s)" % (type(ex).__name__, str(ex)[:80]))
+        return tf, None
     missing = [r for r in ROLES if not roles.get(r)]
     res.inst(T, "state-roles", tf.file, True, "%s" % roles)
     if missing or len(set(roles.values())) != len(ROLES) or set(roles.values()) != set(tf.state_payload_types):
@@ -467,6 +470,11 @@ def run_rules(syn, res):
             except Unanalysable as u:
                 bad += 1
                 res.unanalysable(T, key, "%s:%d" % (tf.file, u.line), "state %s on %s: %s" % (variant, cname, u.msg))
+                continue
+            except (IndexError, KeyError, TypeError, AttributeError, ValueError, RecursionError) as ex:
+                # a shape the abstract interpreter was not written for: the cell is undecided, not the run broken
+                bad += 1
+                res.unanalysable(T, key, tf.file, "state %s on %s: the handler has a shape the interpreter cannot evaluate (%s: %s)" % (variant, cname, type(ex).__name__, str(ex)[:80]))
                 continue
             m = invariants(role, c is None)
             got = {}
